@@ -89,6 +89,21 @@ fn run_c06_case_inner(p: &Program, cfg: &Config, max_iters_for_injection: usize,
             // the next run must be clean
             loom_failures += 1;
             check_probe(&mut rep, format!("loom reported {:?}", class));
+            // the same failure with the unwinding thread really dropping what it owns (loom's
+            // own reports are functions of the execution): same verdict, no abort
+            set_real_drops(true);
+            let (again, _) = trace_run(p, cfg);
+            set_real_drops(false);
+            let same = matches!(&again.status, LoomStatus::Failed { class: c2, .. } if crate::cases::same_class(c2, class)) && again.iterations == dry.iterations;
+            if !same {
+                rep.violations.push(Violation {
+                    kind: "panic_propagation".into(),
+                    detail: format!("loom reported {:?} in iteration {}; with the unwinding thread dropping what it owns the run ended with {:?} after {} iterations", class, dry.iterations + 1, again.status, again.iterations),
+                    known: None,
+                    evidence: json!({}),
+                });
+            }
+            check_probe(&mut rep, format!("loom reported {:?} and the unwinding thread dropped what it owns", class));
         }
         LoomStatus::Capped => {}
         LoomStatus::Completed => {
